@@ -299,6 +299,9 @@ impl<A, C: Clock, F: Filter, R, S> Port<'_, Running, A, R, C, F, S> {
                 log::error!(
                     "Responses from multiple devices to peer delay request, disabling port!"
                 );
+                // this exchange was answered by more than one device: it must neither
+                // produce a measurement nor count as the clean exchange that recovers the port
+                self.peer_delay_state = PeerDelayState::Empty;
                 self.set_forced_port_state(PortState::Faulty);
                 actions![]
             }
@@ -370,6 +373,9 @@ impl<A, C: Clock, F: Filter, R, S> Port<'_, Running, A, R, C, F, S> {
                 log::error!(
                     "Responses from multiple devices to peer delay request, disabling port!"
                 );
+                // this exchange was answered by more than one device: it must neither
+                // produce a measurement nor count as the clean exchange that recovers the port
+                self.peer_delay_state = PeerDelayState::Empty;
                 self.set_forced_port_state(PortState::Faulty);
                 actions![]
             }
